@@ -1,7 +1,24 @@
-"""C14 -- E1 half only for now (props/C14_e1.py); the E2 obligations are merged in here later."""
-from props.C14_e1 import *
-from props import C14_e1 as _e1
+"""C14 — checksums are IEEE CRC-32 and page damage is detected.
+E1 half (props/C14_e1.py, CBMC): carquet_crc32 / update / slicing kernels against the bitwise IEEE definition, linearity lemmas.
+E2 half (props/C14_e2.py, symx): files of the real writer with CRCs, symbolic damage to page bytes (every position, bursts <= 8 bits; 16 bits at
+sampled positions), all three I/O paths, verification on/off, special stored CRC values (0, 0xFFFFFFFF, 1, 0x80000000)."""
+from props import C14_e1 as _e1, C14_e2 as _e2
+FILES = sorted(set(_e1.FILES) | set(_e2.FILES))
+BUDGET = {'quick': 840, 'thorough': 3600}
 
 
 def obligations(tier):
-    return _e1.obligations(tier)
+    return _e1.obligations(tier) + _e2.obligations(tier)
+
+
+def evidence_extra(tier):
+    out = {}
+    for m in (_e1, _e2):
+        for k, v in (getattr(m, 'evidence_extra', lambda t: {})(tier) or {}).items():
+            if isinstance(v, list) and isinstance(out.get(k), list):
+                out[k] = out[k] + v
+            elif isinstance(v, dict) and isinstance(out.get(k), dict):
+                out[k].update(v)
+            else:
+                out.setdefault(k, v)
+    return out
